@@ -6,7 +6,7 @@
    [H] is the 64-bit key hash: universally quantified, so every statement
    holds under hash collisions.  [cfg_valid c] is exactly what
    NewFailureCache accepts: 1 s <= initialTTL <= maxTTL <= 5 min. *)
-From Sdns Require Import Common.Base Gen.C13 C13.Model C13.Proofs_Base C13.Proofs_Backoff C13.Proofs_Cache C13.Proofs_Conc.
+From Sdns Require Import Common.Base Gen.C13 C13.Model C13.Proofs_Base C13.Proofs_Backoff C13.Proofs_Cache C13.Proofs_Conc C13.Proofs_Gen C13.Proofs_Wire.
 Open Scope Z_scope.
 
 (* The backoff starts at the configured minimum, is non-decreasing, at most
@@ -31,6 +31,27 @@ Print Assumptions backoff_envelope.
 Theorem backoff_is_the_go_loop : forall c, cfg_valid c -> forall s, backoff c s = backoff_spec_loop c s.
 Proof. exact backoff_fuel_irrelevant. Qed.
 Print Assumptions backoff_is_the_go_loop.
+
+(* ... and the model's backoff IS FailureCache.backoff as the translator reads
+   it from the Go source today (Gen.C13.go_FailureCache_backoff: the for loop as
+   a fuelled Fixpoint, uint32 generation counter with wrap, int64 ttl), for
+   every valid configuration and every uint32 streak, on any iteration budget
+   of ten or more. *)
+Theorem backoff_is_the_translated_go_function : forall c, cfg_valid c -> forall fuel s,
+  (10 <= fuel)%nat -> (s < 4294967296)%N ->
+  go_FailureCache_backoff fuel (mk_T_FailureCache (c_init c) (c_max c)) s = Some (backoff c s).
+Proof. exact gen_backoff. Qed.
+Print Assumptions backoff_is_the_translated_go_function.
+
+(* The verification of a zone slot (translated failureZoneKeysEqual: zone string
+   octet by octet, class) is the model's key equality, under any injective
+   rendering of label lists as presentation strings. *)
+Theorem zone_slot_verification_is_key_equality : forall pres : name -> list N,
+  (forall a b, pres a = pres b -> a = b) -> forall a b,
+  go_failureZoneKeysEqual (mk_T_FailureZoneKey (pres (zk_zone a)) (zk_class a))
+                          (mk_T_FailureZoneKey (pres (zk_zone b)) (zk_class b)) = zkey_eqb a b.
+Proof. exact gen_zone_keys_equal. Qed.
+Print Assumptions zone_slot_verification_is_key_equality.
 
 (* NewFailureCache admits only valid bounds *)
 Theorem constructor_admits_only_valid_bounds : forall size i m c, new_cfg size i m = Some c -> cfg_valid c /\ 0 < size.
@@ -231,3 +252,48 @@ Print Assumptions single_probe_key.
 Theorem single_probe : forall n sched, (in_flight (probe_run (probe_init n) sched) <= 1)%nat.
 Proof. exact single_probe_in_flight. Qed.
 Print Assumptions single_probe.
+
+(* Cached failures are terminal for the wrapper in front of the cache (dns64):
+   the only SERVFAIL it follows up with a corresponding A query is a shared
+   failure that came from downstream; a failure answered from the cache causes
+   no outgoing query of any kind. *)
+Theorem cached_failure_terminal_for_wrappers :
+  (forall src, wrapper_follow_up src = true <-> src = SrcSharedFailure) /\
+  wrapper_traffic SrcFailureCache = (0, 0) /\
+  (forall src, fst (wrapper_traffic src) = if wrapper_follow_up src then 1 else 0).
+Proof. exact (conj wrapper_follows_only_shared (conj cached_failure_no_traffic wrapper_lookups_match_follow_up)). Qed.
+Print Assumptions cached_failure_terminal_for_wrappers.
+
+(* The wrapper behind the cache (failover): a request-local failure of the
+   primary stays request-local whatever the fallback servers answer (the only
+   other outcome is a fallback's useful answer, and only for the attempt-limit
+   mark), so the cache records nothing for it; a shed probe or an abandoned
+   request starts no fallback traffic at all. *)
+Theorem failover_keeps_request_local_failures_private : forall rd p fbs, fo_local p = true ->
+  match snd (failover_outcome rd p fbs) with
+  | DFail r => request_local r = true /\ forall H c s k now, serve_writeback H c s k (DFail r) now = s
+  | DUseful _ => p = FoMarkedAttempt /\ In FbUseful fbs
+  | DTruncated => False
+  end.
+Proof. exact failover_local_private. Qed.
+Print Assumptions failover_keeps_request_local_failures_private.
+
+Theorem failover_shed_request_sends_nothing : forall rd p fbs, p = FoMarkedProbe \/ p = FoCtxErr ->
+  Forall (fun a => a = 0) (fst (failover_outcome rd p fbs)).
+Proof. exact failover_shed_no_traffic. Qed.
+Print Assumptions failover_shed_request_sends_nothing.
+
+(* The wire fast path answers a cached failure only when checking is disabled,
+   or denial is impossible for the store, or the failure is a question failure
+   whose record-time miss witness still describes the denial index; the witness
+   holds while the index is unchanged and is invalidated by any snapshot on the
+   name's path that it does not carry (a denial zone that appeared or changed). *)
+Theorem wire_path_serves_failure_only_under_valid_witness :
+  (forall cd kq di idx_rung idx_query n,
+     wire_gate cd kq di (witness_holds idx_query n (if cd || negb kq then [] else miss_witness idx_rung n)) = true ->
+     cd = true \/ di = true \/ (kq = true /\ witness_holds idx_query n (miss_witness idx_rung n) = true)) /\
+  (forall idx n, witness_holds idx n (miss_witness idx n) = true) /\
+  (forall idx n w z id, In z (suffixes (canon_name n)) -> snapshot_of idx z = Some id ->
+     (forall p, In p w -> fst p = z -> snd p <> id) -> witness_holds idx n w = false).
+Proof. exact (conj wire_gate_open (conj witness_fresh witness_invalidated)). Qed.
+Print Assumptions wire_path_serves_failure_only_under_valid_witness.
